@@ -35,7 +35,16 @@ S32, S64 = (1 << 31) - 1, 1 << 62
 HOWS = ['left', 'right', 'inner', 'outer']
 AUX = ('_left_map', '_right_map')
 
-RULE = ('exhaustive small scope: every pair of non-decreasing single-key columns of length <= N over 3 symbols '
+RULE = ('(SC02) key columns of every dtype: all 146 ordered pairs of key dtypes within {int8..int64, uint8..uint64, bool} x '
+        '{the same}, {float32, float64}^2, integer x float (both orders) and {S1,S2,S3,S5,S8}^2, each x 4 modes on the pandas '
+        'path (hint-free / non-selecting truthful hints, sorted and unsorted, some with a second key column) and x '
+        '{left,right,inner} on the streamed path (truthful unique hints, small and production chunk sizes), 2 structured-'
+        'random frames per combination in the quick tier (12 thorough; doubled when a library source differs from the '
+        'recorded tree): common values, values at the extremes of each dtype and around 2^7..2^64, and on each side aliases '
+        'of the other side\'s keys under every conversion between the two dtypes (wrap-around at 8/16/32/64 bits, sign '
+        'reinterpretation, rounding to 24/53 significant bits, truncated fractions, truncated byte strings); keys are sent '
+        'to the model in an exact monotone integer encoding; new small literals of the tree under test are planted as key '
+        'values, key-column lengths and chunk sizes. Then: exhaustive small scope: every pair of non-decreasing single-key columns of length <= N over 3 symbols '
         '(quick N=3: 400 pairs; thorough N=4: 1225 pairs) x how in {left,right,inner} x every truthful (unique-left, '
         'unique-right) hint combination with both ordered hints set (the streamed path) x join chunk size 1..3 and the '
         'production 1<<20, the map-stream chunk size / value_factor / chunked_copy size rotating over 1..4; the same pairs x '
@@ -46,12 +55,19 @@ RULE = ('exhaustive small scope: every pair of non-decreasing single-key columns
         'is one real merge on HDF5-backed frames (about 15-60 ms), which is what bounds N. Non-trivial = reaches a planted '
         'feature beyond its how/path tags.')
 EXHAUSTIVE = {'quick': True, 'thorough': True}
-TRUSTED = ['pandas.merge on (key columns, row index): section variable of the model, instantiated with the relational join; '
+TRUSTED = ['the encoding of key values as integers (harness/props/C02.py _dec_key/_enc_key: integers as themselves, floats '
+           'times 2^60, byte strings big-endian in 8 bytes), checked by a round trip on every key column created; its '
+           'soundness for the specification is Props/C02.v merge_spec_key_embedding',
+           'pandas.merge on (key columns, row index): section variable of the model, instantiated with the relational join; '
            'results of the pandas path are compared up to row order',
            'h5py / HDF5 field storage, Field.create_like, DataFrame.rename (modelled as association-list updates)',
            'numba code generation; numpy slicing semantics (np_slice / np_get of Model/MapStream.v)',
            'chunk sizes are injected by wrapping exetera.core.operations attributes with functools.partial (no source edit)']
-ASSUMPTIONS = ['hints are truthful; chunk sizes >= 1; every mapped indexed-string entry fits chunksize*value_factor bytes',
+ASSUMPTIONS = ['key values are finite (no NaN: no order, so no truthful ordered hint), floats are multiples of 2^-60 below 1e305, '
+               'fixed-string keys at most 8 bytes; the two key columns of a pair are both numeric or both fixed strings',
+               'no two keys of opposite sides of an int64/uint64 or integer/float key pair have the same binary64 value '
+               '(else known finding F-C02i)',
+               'hints are truthful; chunk sizes >= 1; every mapped indexed-string entry fits chunksize*value_factor bytes',
                'no run of equal keys on a trimmed side reaches the join chunk size (else the repaired get_next_chunk raises '
                'a clear ValueError: known finding F-C02g, production chunk size 1<<20)']
 
@@ -1123,8 +1139,9 @@ def _key_sides(a, b, rng, sort, n_max=6):
                 dst.append(rng.choice(al[:4]))
     L, R = L[:n_max], R[:n_max]
     big = ('int64', 'uint64')
-    if ((a in big and b in FLOATS) or (b in big and a in FLOATS) or {a, b} == set(big)) and rng.random() < 0.35:
-        # two keys one apart at a magnitude where binary64 cannot tell them apart (the comparison type of such a pair)
+    if ((a in big and b in FLOATS) or (b in big and a in FLOATS) or (a in big and b in big)) and rng.random() < 0.35:
+        # two keys one apart at a magnitude where binary64 cannot tell them apart (the comparison type of a mixed pair;
+        # a same-dtype 64-bit pair must of course tell them apart)
         from fractions import Fraction as F
         v = F(1 << rng.choice([53, 54, 60, 62, 63]))
         for w, (sd, dt) in zip(rng.sample([v, v + 1, v - 1], 2), ((L, a), (R, b))):
@@ -1193,6 +1210,11 @@ def _gen_key_dtypes(tier, rng, cnt0):
                 nl, nr = len(c['L']['keys'][0]), len(c['R']['keys'][0])
                 if c['cs'] is None and not (nl * nr + nl + nr < MODEL_BIG):
                     continue
+                if float_collapse(c) and not any(whole_column_cast(c)):
+                    # F-C02i where no per-column model predicts the result (numba's per-comparison conversion, pandas'
+                    # int64/uint64 route): witnesses live in corpus/C02/F-C02i.json; the cross-cutting checks C10/C11 that
+                    # re-run this generator compare with the model only
+                    continue
                 yield c
     # change-directed: a small integer literal K that is new in the tree under test may be a threshold on a key value, a
     # key-column length or a chunk size: key values and lengths K-1, K, K+1, 2K with chunk sizes around K, on both paths
@@ -1226,8 +1248,8 @@ def shrink(case):
         n = len(fr['keys'][0])
         for i in range(n):
             c = dict(case)
-            c[side] = {'keys': [k[:i] + k[i + 1:] for k in fr['keys']], 'kn': fr['kn'],
-                       'cols': [[nm, v[:i] + v[i + 1:]] for nm, v in fr['cols']]}
+            c[side] = dict(fr, keys=[k[:i] + k[i + 1:] for k in fr['keys']],
+                           cols=[[nm, v[:i] + v[i + 1:]] for nm, v in fr['cols']])
             yield c
         for j in range(len(fr['cols'])):
             nm = fr['cols'][j][0]
@@ -1250,5 +1272,10 @@ LEVEL_TEXT = ('Theorems in coq/Props/C02.v: the streamed path of the repaired me
               'instantiate C03 streamed_total for all eight generators and C04 for in-range maps in any order; the copied side of the '
               'right/left-unique variants is proved equal to the gather through all rows; equal column lengths and '
               'non-decreasing key order are separate corollaries); the pandas path is correspondence against the '
-              'specification (pandas trusted).')
+              'specification (pandas trusted). Key columns of any dtype: the relational join is invariant under every map '
+              'of the key values that is injective on the values present (join_pairs_key_embedding, merge_spec_key_embedding, '
+              'join_maps_key_embedding) and the streamed path run on keys seen through a strictly monotone map returns the '
+              'destination of the join of the keys themselves (ordered_merge_key_embedding); conversions that are not '
+              'injective on the keys present change the join (narrowing_key_cast_refuted: int64->int32, int64->uint16, '
+              'float64->float32, S5->S3; binary64_key_comparison_refuted: F-C02i).')
 LEVEL_NOTE = 'Model tied to /repo by the differential run only; see evidence for theorem list and which are full / partial / refuted.'
